@@ -14,6 +14,7 @@ mod scopes;
 mod strfy;
 mod total;
 mod util;
+mod valparse;
 
 fn main() {
     // quiet panics: they are caught and reported as values
@@ -53,6 +54,7 @@ fn main() {
         "one" => total::one(tier, args.get(3).map(|s| s.as_str()).unwrap_or(""), &mut out),
         "scale" => total::scale(tier, seed, &mut out),
         "strfy" => strfy::run(tier, seed, &mut out),
+        "valparse" => valparse::run(tier, seed, &mut out),
         "scopes" => scopes::run(tier, seed, &mut out),
         "scopeval" => scopes::run_val(tier, seed, &mut out),
         "probe" => probe::run(&args[2..]),
